@@ -166,7 +166,8 @@ class Function:
                         aws.append(cls.create_task(cmd[1]))
                     elif cmd[0] == "sync":
                         if len(aws) > 0:
-                            await asyncio.gather(*aws)
+                            # (a task that was canceled, eg by itself, mustn't cancel the waiter)
+                            await asyncio.gather(*aws, return_exceptions=True)
                             aws = []
                         await cmd[1].put(0)
                     else:
